@@ -15,7 +15,10 @@ CHECK = 'check_case'
 SHARD_SIZE = 150
 RULE = ('one real SecopClient (rx/tx threads, fake AsynConn subclass) with 2..4 caller threads calling request() '
         '(equal and distinct keys, known and unknown actions), optionally a user thread calling disconnect(), a peer '
-        'script (reply to the j-th outstanding request ok/error, update, idle, close; with virtual delays) and a thread '
+        'script (reply to the j-th outstanding request ok/error, update, idle, close, late reply to a request whose '
+        'caller already timed out; with virtual delays), optional start delays of the callers (time-out scenarios: '
+        'the first caller of a key times out after 10 virtual s while the peer is silent / sends only updates, its '
+        'late reply arrives, a parked equal-key request is transmitted and answered) and a thread '
         'schedule at synchronisation-point granularity (seeded random, sticky random, bounded-preemption, explicit); '
         'every run is a real multi-thread execution under the deterministic scheduler and is replayable from its '
         'decision list; non-trivial = at least one request was transmitted or a disconnect ran; distinct = distinct '
@@ -25,8 +28,14 @@ ASSUMPTIONS = [
     'Thread.join, connection send/recv); preemption between two bytecodes of a region without such a point is not explored',
     'every request() call passes its connect() check while the connection is up (a call on a closed client reconnects; '
     'reconnection and activate=True auto-reconnect are not modelled: client.activate=False)',
-    'peer: answers only requests it received, each at most once, with the reply action of the SECoP table (or error_<action>), '
-    'never answers a request whose caller already returned; updates only for described parameters; one line per recv',
+    'peer: answers only requests it received, each at most once, with the reply action of the SECoP table (or error_<action>); '
+    'updates only for described parameters; one line per recv',
+    'late replies: the answer to a request whose caller already timed out is scripted only while the timed-out entry is '
+    'still registered in active_requests (before the rx thread has treated its cleanup list); a later one is '
+    'indistinguishable on the wire from the answer to a newer request with the same action+specifier (SECoP has no '
+    'request ids) and is not explored',
+    'callers with a start delay exist only in scenarios without connection loss / user disconnect (a request() on a '
+    'closed client would reconnect, which is not modelled)',
     'idle heartbeat (ping after 5 idle seconds) is not modelled: peer scripts never contain 5 consecutive idle seconds',
     'queues never reach their bound of 30 (at most 4 callers)',
 ]
@@ -66,8 +75,15 @@ def run_case(case):
     st = {'pos': 0, 'local_closed': False, 'peer_closed': False, 'lost_at': None}
     outstanding = []         # [tok, action, ident, sent_at]
     sends = []               # [tok, virtual time]
-    answers = []             # [tok, ok, virtual time]
+    answers = []             # [tok, ok, virtual time, late]   late: the caller had already timed out
+    unhandled = []           # [action, ident, tok, virtual time]  messages the client reported as unhandled
     done = [False] * n
+    delays = list(case.get('delays') or []) + [0.0] * n
+    box = {}
+
+    def registered(i):
+        c = box.get('client')
+        return c is not None and any(e[1].name == f'ev_c{i}' for e in list(c.active_requests.values()))
 
     class FakeConn(AsynConn):
         """scripted connection; recv/send are synchronisation points.  The line buffering of the real
@@ -93,7 +109,7 @@ def run_case(case):
 
         def recv(self):
             d = script[st['pos']] if st['pos'] < len(script) else ['U', 1.0]
-            delay = 1.0 if d[0] == 'I' else float(d[-1]) if d[0] in 'RUE' else 0.0
+            delay = 1.0 if d[0] == 'I' else float(d[-1]) if d[0] in 'RUEL' else 0.0
             s.block('recv', lambda: st['local_closed'], delay)
             if st['local_closed']:
                 s.annotate(peer=['X'])
@@ -107,14 +123,17 @@ def run_case(case):
             if d[0] == 'I':
                 s.annotate(peer=['I'])
                 return b''
-            if d[0] == 'R':
-                live = [o for o in outstanding if o[0] >= 0 and not done[o[0]]]
+            if d[0] in 'RL':
+                if d[0] == 'R':
+                    live = [o for o in outstanding if o[0] >= 0 and not done[o[0]]]
+                else:    # late reply: the caller timed out, its entry is still in the table (see ASSUMPTIONS)
+                    live = [o for o in outstanding if o[0] >= 0 and done[o[0]] and registered(o[0])]
                 if live:
                     o = live[d[1] % len(live)]
                     outstanding.remove(o)
                     tok, action, ident = o
                     ok = bool(d[2])
-                    answers.append([tok, ok, s.now])
+                    answers.append([tok, ok, s.now, d[0] == 'L'])
                     s.annotate(peer=['R', tok, ok])
                     if ok:
                         ra = fc.REQUEST2REPLY.get(action, action + '_r')
@@ -141,8 +160,16 @@ def run_case(case):
         fc.time = s.time_module
         fc.mkthread = s.mkthread
         fc.current_thread = s.current_thread
-        client = fc.SecopClient('fake://peer', log=None)
+        client = box['client'] = fc.SecopClient('fake://peer', log=None)
         client.activate = False
+
+        def on_unhandled(action, ident, data):
+            try:
+                tok = int(data[0]) if isinstance(data[0], float) else int(str(data[1])[3:])
+            except Exception:
+                tok = -1
+            unhandled.append([action, ident, tok, s.now])
+        client.register_callback(None, unhandledMessage=on_unhandled)
         client.txq.name, client.pending.name = 'txq', 'pending'
         txq_dropped = []         # events of the entries removed by the non-blocking get of disconnect()
         orig_get = client.txq.get
@@ -188,6 +215,8 @@ def run_case(case):
 
         def caller(i):
             action, ident = reqs[i]
+            if delays[i] > 0:
+                s.block('delay', lambda: False, delays[i])
             started_at[i] = s.now
             try:
                 r = client.request(action, ident, i)
@@ -243,7 +272,8 @@ def run_case(case):
         return {
             'status': res.status, 'main_error': res.error, 'trace': trace, 'decisions': res.decisions,
             'outcomes': outcomes, 'waited': waited, 'started_at': started_at, 'finished_at': finished_at,
-            'where': where, 'user': user, 'sends': sends, 'answers': answers, 'lost_at': st['lost_at'],
+            'where': where, 'user': user, 'sends': sends, 'answers': answers, 'unhandled': unhandled,
+            'lost_at': st['lost_at'],
             'tx': tstat(workers.get('tx')), 'rx': tstat(workers.get('rx')),
             'blocked_at_end': res.blocked_at_end, 'thread_errors': res.thread_errors, 'now': res.now,
         }
@@ -292,7 +322,7 @@ def enc_arg(info):
 def model_steps(obs):
     """the steps the model contains: everything except the driver and the callers' connect() prelude"""
     return [(t, lab, info) for t, lab, info in obs['trace']
-            if not (t[0] == 'c' and lab in ('start', 'acquire:lock'))]
+            if not (t[0] == 'c' and lab in ('start', 'acquire:lock', 'delay'))]
 
 
 def enc_outcome(o):
@@ -400,13 +430,28 @@ def oracle(case, obs):
                 busy_until = obs['started_at'][i]
                 for j in range(n):
                     if j != i and _key(reqs[j]) == _key(reqs[i]) and j in sent:
-                        end = answered[j][2] if j in answered else obs['finished_at'][j]
+                        if j in answered:
+                            end = answered[j][2]
+                        elif sent[j] >= obs['finished_at'][j]:
+                            # transmitted after its own caller had timed out (it was parked meanwhile) and never
+                            # answered by the scripted peer: the key stays taken
+                            end = obs['now']
+                        else:
+                            end = obs['finished_at'][j]
                         busy_until = max(busy_until, end)
                 if busy_until < fin - PROMPT:
                     fail('request-never-sent', f'caller {i} ({obs["where"][i]}) timed out at {fin}; its request was never '
                          f'transmitted although the connection was up and its key free since {busy_until}')
         else:
             fail('caller-unexpected-exception', f'caller {i} got {o}')
+    # a reply the peer sent to a caller that was still waiting must be matched to its request: the client must not
+    # report it as an unhandled message (late replies, sent after the caller's time-out, are exempt)
+    for action, ident, tok, t in obs.get('unhandled', []):
+        a = answered.get(tok)
+        if a is not None and not (len(a) > 3 and a[3]) and 0 <= tok < n:
+            fail('reply-unhandled', f'the answer "{action} {ident}" of the peer to the outstanding request of caller '
+                 f'{tok} ({reqs[tok]}, still waiting at {t}) was reported as unhandled message; the caller ended '
+                 f'with {obs["outcomes"][tok]}')
     if case.get('user'):
         if user['res'] is None:
             fail('disconnect-never-returned', 'disconnect() did not return')
@@ -453,6 +498,15 @@ def outcome_labels(case, obs):
         labs.add('timed-out-in-pending')
     if any(w in ('txq', 'txq-dropped') for w in obs['where']):
         labs.add('timed-out-lost-in-txq')
+    if any(len(a) > 3 and a[3] for a in obs['answers']):
+        labs.add('late-reply-after-timeout')
+        late = {a[0] for a in obs['answers'] if len(a) > 3 and a[3]}
+        for i, o in enumerate(obs['outcomes']):
+            # an equal-key request transmitted after the late reply and answered
+            if o and o[0] in ('reply', 'error') and any(_key(case['reqs'][j]) == _key(case['reqs'][i]) for j in late):
+                labs.add('key-reused-after-late-reply')
+    if obs.get('unhandled'):
+        labs.add('unhandled-message')
     return sorted(labs)
 
 
@@ -528,6 +582,79 @@ def rand_case(rng):
     return {'reqs': reqs, 'peer': rand_peer(rng, len(reqs), user), 'user': user, 'sched': rand_sched(rng)}
 
 
+def quiet_peer(rng, seconds):
+    """a peer that does not answer for exactly `seconds` virtual seconds (a multiple of 0.25): updates / error
+    updates / short idle runs only"""
+    script, t, idle_run = [], 0.0, 0
+    while t < seconds:
+        left = seconds - t
+        if left >= 1.0 and rng.random() < 0.3 and idle_run < 3:
+            script.append(['I'])
+            t += 1.0
+            idle_run += 1
+        else:
+            d = min(left, rng.choice([0.5, 1.0, 1.0]))
+            script.append([rng.choice('UUE'), d])
+            t += d
+            idle_run = 0
+    return script
+
+
+def timeout_case(rng):
+    """time-out scenario: equal-key requests, the first caller's 10 s expire while the peer is quiet, then late
+    replies / replies / updates in random order; later callers start with a delay so that their own time-out is
+    still far away when the key changes its owner"""
+    n = rng.choice([2, 2, 2, 3, 3, 4])
+    r = [rng.choice(ACTIONS), rng.choice(IDENTS)]
+    reqs = [list(r) for _ in range(n)]
+    if n >= 3 and rng.random() < 0.4:      # one request with (possibly) another key
+        reqs[rng.randrange(1, n)] = [rng.choice(ACTIONS), rng.choice(IDENTS)]
+    delays = [0.0] + sorted(rng.choice([0.0, 2.0, 4.0, 6.0, 8.0, 9.5]) for _ in range(n - 1))
+    peer = []
+    if rng.random() < 0.3:                  # something is answered before the silence
+        peer.append(['R', rng.randrange(4), int(rng.random() < 0.8), rng.choice([0.0, 0.5])])
+    # the recv call that delivers the late reply must begin before the first caller's time-out (otherwise the rx
+    # thread treats the cleanup list first): quiet until 9.0 .. 9.75 s, then a line that arrives up to 1 s later
+    peer += quiet_peer(rng, rng.choice([9.0, 9.25, 9.5, 9.5, 9.75]))
+    peer.append([rng.choice('LLLRU'), rng.randrange(3), int(rng.random() < 0.8), rng.choice([0.5, 1.0, 1.0])])
+    for _ in range(rng.randint(2, 9)):
+        x = rng.random()
+        d = rng.choice([0.0, 0.0, 0.25, 0.5, 1.0])
+        if x < 0.4:
+            peer.append(['L', rng.randrange(3), int(rng.random() < 0.8), d])
+        elif x < 0.8:
+            peer.append(['R', rng.randrange(3), int(rng.random() < 0.8), d])
+        else:
+            peer.append([rng.choice('UE'), d])
+    x = rng.random()
+    if x < 0.6:
+        sched = {'kind': 'seed', 'seed': rng.randrange(1 << 30), 'stick': rng.choice([0.0, 0.0, 0.5])}
+    else:
+        k = rng.choice([1, 1, 2])
+        sched = {'kind': 'preempt', 'points': {str(rng.randrange(30, 260)): rng.randrange(4) for _ in range(k)}}
+    return {'reqs': reqs, 'delays': delays, 'peer': peer, 'user': False, 'sched': sched}
+
+
+def timeout_systematic(stride):
+    """the late-reply scenario x every single preemption point (step numbers in steps of `stride`)"""
+    out = []
+    scenarios = [
+        # c0 times out at 10 s, c1 (same key, started at 6 s) is parked; late reply for c0, then c1 is transmitted
+        # and answered
+        {'reqs': [['read', 'm:p'], ['read', 'm:p']], 'delays': [0.0, 6.0],
+         'peer': [['U', 1.0]] * 9 + [['U', 0.5], ['L', 0, 1, 1.0], ['R', 0, 1, 0.25], ['R', 0, 1, 0.0]], 'user': False},
+        # unknown actions (key None), error replies, a third caller with another key
+        {'reqs': [['foo', 'm:q'], ['bar', 'm:p'], ['change', 'm:q']], 'delays': [0.0, 8.0, 9.5],
+         'peer': [['E', 1.0], ['I'], ['U', 1.0], ['I'], ['I']] * 2 + [['U', 0.25], ['L', 0, 0, 1.0],
+                  ['R', 1, 1, 0.0], ['R', 0, 0, 0.5], ['R', 0, 1, 0.0]], 'user': False},
+    ]
+    for sc in scenarios:
+        for step in range(20, 200, stride):
+            for idx in range(2):
+                out.append(dict(sc, sched={'kind': 'preempt', 'points': {str(step): idx}}))
+    return out
+
+
 def systematic_cases(max_pairs):
     """small scenarios x every single preemption point (and pairs up to max_pairs per scenario)"""
     scenarios = [
@@ -554,7 +681,22 @@ def gen_cases(seed, tier):
     n = {'quick': 2400, 'thorough': 40000, 'search': 40000}[tier]
     cases = [rand_case(rng) for _ in range(n)]
     cases.extend(systematic_cases(100 if tier == 'quick' else 3000))
+    rng2 = random.Random(seed * 1000003 + 12)     # own stream: the cases above stay what they were
+    cases.extend(timeout_case(rng2) for _ in range(n // 10))
+    cases.extend(timeout_systematic(2 if tier == 'quick' else 1))
     return cases
+
+
+def search_cases(seed, mismatching_cases):
+    """obligations broken, no oracle failure among the checked cases: the cases on which model and implementation
+    differ under many other schedules (same requests / peer / delays), then a thorough budget with another seed"""
+    rng = random.Random(seed * 1000003 + 13)
+    out = []
+    for c in mismatching_cases[:20]:
+        for _ in range(200):
+            out.append(dict(c, sched={'kind': 'seed', 'seed': rng.randrange(1 << 30), 'stick': rng.choice([0.0, 0.5, 0.8])}))
+    out.extend(gen_cases(seed + 7919, 'thorough'))
+    return out
 
 
 def shrink(case):
@@ -563,6 +705,6 @@ def shrink(case):
         for i in range(len(peer) - 1, -1, -1):
             yield dict(case, peer=peer[:i] + peer[i + 1:])
         if len(reqs) > 2:
-            yield dict(case, reqs=reqs[:-1])
+            yield dict(case, reqs=reqs[:-1], delays=(case.get('delays') or [])[:len(reqs) - 1])
         if case.get('user'):
             yield dict(case, user=False)
